@@ -32,6 +32,8 @@ pub mod plugin;
 pub mod sentence_detector;
 pub mod sentence_splitter;
 pub(crate) mod util;
+#[cfg(feature = "verif")]
+pub mod verif;
 
 mod hash;
 pub mod pos;
